@@ -372,6 +372,20 @@ def run(world, rep, tier, only=None):
         rep.ob("C20.i", site(afi, "backup slot moved only from the old last group#%d" % i), tied,
                "`%s` (line %d) is decided by a comparison of s_backup_bgs[] with old_last_bg" % (n.text()[:40], n.line))
 
+    # ------------------------------------------------------------------ C20.j a backup location is released only when no slot names it any more
+    # After a grow clear_sparse_super2_last_group() gives back the superblock/descriptor blocks of the old last group
+    # if that group held the second backup and the backup has moved on.  It must not do so while one of the *new*
+    # s_backup_bgs[] slots still names that group (two groups with slots {1,0} grown to {1,last}): the release lies
+    # behind a comparison of the new file system's slots with old_last_bg.
+    csl = rs.fn("clear_sparse_super2_last_group", "resize/resize2fs.c")
+    rel = [n for n in calls_to(csl, "ext2fs_unmark_block_bitmap2", "ext2fs_unmark_block_bitmap_range2")]
+    rep.floor("C20.j releases in clear_sparse_super2_last_group", len(rel), 1)
+    for i, n in enumerate(rel):
+        kept = [T.pp(a_)[:50] for t, a_ in control_lits(csl, n) + restrict_lits(csl, n)
+                if t is not None and "s_backup_bgs" in T.field_names(a_) and "old_last_bg" in T.vars_in(a_) and "old_fs" not in T.pp(a_)]
+        rep.ob("C20.j", site(csl, "old backup blocks released only when the new slots no longer name that group#%d" % i), bool(kept),
+               "`%s` lies behind a comparison of fs->super->s_backup_bgs[] with old_last_bg: %s" % (n.text()[:40], kept[:2]))
+
     # ------------------------------------------------------------------ C20.f the backup search starts afresh for every block size
     # get_backup_sb() tries each block size in turn and, for each, walks the prescribed backup groups with the
     # ext2fs_list_backups() iterator.  The iterator state must be initialised inside the block-size loop: initialised
